@@ -81,7 +81,7 @@ Proof. exact ex_disciplined. Qed.
     cannot touch an object.  The defaults they return are checked on the implementation
     (TestVerifWrappers). *)
 From GFS Require GenWrappers.
-Lemma every_exported_wrapper_guards_its_handle :
+Theorem every_exported_wrapper_guards_its_handle :
   forallb (fun w => match snd w with GenWrappers.Unguarded => false | _ => true end) GenWrappers.wrappers = true.
 Proof. vm_compute. reflexivity. Qed.
 Lemma wrapper_table_is_not_empty : (40 <=? List.length GenWrappers.wrappers)%nat = true.
